@@ -26,7 +26,7 @@ var verifC16SourceQueries = []struct {
 	{"SELECT v FROM \"a\".\"b\".m, (SELECT v FROM \"c\".\"d\".n)", []verifC16Src{{"a", "b"}, {"c", "d"}}, true},
 }
 
-// VerifC16CheckDBRPs: a batch task with 1..2 query nodes and 1..2 declared dbrps
+// VerifC16CheckDBRPs: a batch task with 1..2 query nodes and 0..2 declared dbrps
 // (symbolic names): checkDBRPs (the gate of BatchQueries) passes iff every source of
 // every query names a declared (database, retention policy) pair.
 func VerifC16CheckDBRPs(v *vrt.T) {
@@ -42,7 +42,7 @@ func VerifC16CheckDBRPs(v *vrt.T) {
 		bn.children = append(bn.children, qn)
 		srcs = append(srcs, sq.srcs...)
 	}
-	nd := 1 + v.Choose("dbrps", 2)
+	nd := v.Choose("dbrps", 3) // 0: a task that declares nothing (nil list) may query nothing
 	task := &Task{ID: "t", Type: BatchTask}
 	for i := 0; i < nd; i++ {
 		task.DBRPs = append(task.DBRPs, DBRP{
